@@ -196,6 +196,8 @@ impl Storage {
                 }));
             });
 
+        #[cfg(smlxl_storage_layout_extractor_verif)]
+        crate::verif_hooks::order("vm.storage.export", &mut all_values);
         all_values
     }
 }
